@@ -1,0 +1,6 @@
+//go:build !verif
+// +build !verif
+
+package css_parser
+
+func VerifOptionsDigest(o *Options) string { return "" }
